@@ -71,11 +71,7 @@ func (fc *FnCtx) convertCode(st *State, v Val, to types.Type, call *ast.CallExpr
 	}
 	if isString(to) {
 		if s, ok := v.Ty.Underlying().(*types.Slice); ok && basicOf(s.Elem()) != nil && basicOf(s.Elem()).Kind() == types.Uint8 {
-			r := fc.fresh("str", fc.strSort())
-			fc.assume(st, app("=", app("gs.len", r), app("s-len", v.T)))
-			a := app("select", fc.heapGet(st, "E$uint8", fmt.Sprintf("(Array Int (Array %s (_ BitVec 8)))", fc.I())), app("s-arr", v.T))
-			fc.assume(st, fmt.Sprintf("(forall ((i %s)) (! (=> (and %s %s) (= (gs.at %s i) (select %s %s))) :pattern ((gs.at %s i))))", fc.I(), fc.leIdx(fc.idxLit(0), "i"), fc.ltIdx("i", app("s-len", v.T)), r, a, fc.addIdx(app("s-off", v.T), "i"), r))
-			return Val{T: r, Ty: to}
+			return fc.bytesToString(st, v, to)
 		}
 	}
 	return fc.convert(v, to, call.Pos())
@@ -1247,4 +1243,23 @@ func substSExpr(e *SExpr, sub map[string]*SExpr) *SExpr {
 		}
 	}
 	return &n
+}
+
+// bytesToString: string(b) is a function of the bytes b[0..len): gs.ofbytes(content array, offset, length),
+// with axioms giving its length and characters. The same term is produced for the spec expression string(b[lo:hi]).
+func (fc *FnCtx) bytesToString(st *State, v Val, to types.Type) Val {
+	fc.strSort()
+	I := fc.I()
+	if !fc.declared["gs.ofbytes"] {
+		fc.declared["gs.ofbytes"] = true
+		fc.addPre(fmt.Sprintf("(declare-fun gs.ofbytes ((Array %s (_ BitVec 8)) %s %s) Str)", I, I, I))
+		fc.addAxiom("gs.ofbytes", fmt.Sprintf("(assert (forall ((a (Array %s (_ BitVec 8))) (o %s) (n %s)) (! (=> %s (= (gs.len (gs.ofbytes a o n)) n)) :pattern ((gs.ofbytes a o n)))))", I, I, I, fc.leIdx(fc.idxLit(0), "n")))
+		fc.addAxiom("gs.ofbytes", fmt.Sprintf("(assert (forall ((a (Array %s (_ BitVec 8))) (o %s) (n %s) (i %s)) (! (=> (and %s %s) (= (gs.at (gs.ofbytes a o n) i) (select a %s))) :pattern ((gs.at (gs.ofbytes a o n) i)))))", I, I, I, I, fc.leIdx(fc.idxLit(0), "i"), fc.ltIdx("i", "n"), fc.addIdx("o", "i")))
+	}
+	if !fc.isBVType(tUint8) {
+		fc.fail(token.NoPos, "string([]byte) needs bytes as bit-vectors (use `arith mixed`)")
+	}
+	key, srt := fc.elemsKey(tUint8)
+	a := app("select", fc.heapGet(st, key, srt), app("s-arr", v.T))
+	return Val{T: app("gs.ofbytes", a, app("s-off", v.T), app("s-len", v.T)), Ty: to}
 }
